@@ -182,7 +182,9 @@ func (l *Lexer) nextInsideToken() token.Token {
 				break
 			}
 		}
-		tok = l.nextInsideToken()
+		// the token after the comment is complete: do not fall through to
+		// the trailing readChar, which would swallow the byte that follows it
+		return l.nextInsideToken()
 	case '[':
 		tok = l.newToken(token.LBRACKET)
 	case ']':
